@@ -1,0 +1,79 @@
+//go:build verif
+
+package tensor
+
+// Machine-checked contracts for the verification framework under /verif (govc).
+// This file contains no executable code and is only compiled with -tags verif.
+
+//@ spec sumInts(a, n) int decreases n = n <= 0 ? 0 : sumInts(a, n-1) + a[n-1]
+//@ spec prodInts(a, n) int decreases n = n <= 0 ? 1 : prodInts(a, n-1) * a[n-1]
+//@ spec sufprod(s, i) int decreases len(s) - i = i >= len(s) ? 1 : s[i] * sufprod(s, i+1)
+//@ spec dot(s, c, n) int decreases n = n <= 0 ? 0 : dot(s, c, n-1) + s[n-1]*c[n-1]
+//@ spec allOnes(d) bool = forall i :: 0 <= i && i < len(d) ==> d[i] == 1
+
+//@ func tensor.SumInts
+//@   ensures [value] retVal == sumInts(a, len(a))
+//@   assigns nothing
+//@   loop 0 invariant [acc] 0 <= _i && _i <= len(a) && retVal == sumInts(a, _i)
+
+//@ func tensor.ProdInts
+//@   ensures [value] retVal == prodInts(a, len(a))
+//@   assigns nothing
+//@   loop 0 invariant [acc] 0 <= _i && _i <= len(a) && retVal == prodInts(a, _i)
+
+//@ func tensor.Shape.IsScalarEquiv
+//@   ensures [value] result == allOnes(s)
+//@   assigns nothing
+//@   loop 0 invariant [pre] 0 <= _i && _i <= len(s) && isEquiv && (forall j :: 0 <= j && j < _i ==> s[j] == 1)
+
+//@ spec isVec(d) bool = len(d) == 1 || (len(d) == 2 && ((d[1] == 1 && d[0] > 1) || (d[0] == 1 && d[1] > 1)))
+//@ spec preprod(s, i) int decreases i = i <= 0 ? 1 : preprod(s, i-1) * s[i-1]
+
+// ---- pools (trusted: sync.Pool / channels are outside the verified subset) ----
+
+//@ func tensor.BorrowInts
+//@   trusted
+//@   requires [size] size >= 0
+//@   ensures [fresh] fresh(result) && len(result) == size && cap(result) == size
+//@   ensures [zero] forall i :: 0 <= i && i < size ==> result[i] == 0
+//@   assigns nothing
+
+//@ func tensor.ReturnInts
+//@   trusted
+//@   assigns whole(is)
+
+// ---- C01: coordinate -> offset ----
+
+//@ func tensor.Ltoi
+//@   props C01
+//@   ensures [scalar_ok] allOnes(shape) && err == nil ==> at == 0 && (forall i :: 0 <= i && i < len(coords) ==> coords[i] == 0)
+//@   ensures [scalar_rejects] allOnes(shape) && (exists i :: 0 <= i && i < len(coords) && coords[i] != 0) ==> err != nil
+//@   ensures [in_range] !allOnes(shape) && err == nil ==> len(coords) <= len(shape) && (forall i :: 0 <= i && i < len(coords) ==> 0 <= coords[i] && coords[i] < shape[i])
+//@   ensures [rejects] !allOnes(shape) && (exists i :: 0 <= i && i < len(coords) && (i >= len(shape) || coords[i] < 0 || coords[i] >= shape[i])) ==> err != nil
+//@   ensures [offset] !allOnes(shape) && err == nil && !(isVec(shape) && len(strides) == 1) ==> at == dot(strides, coords, len(coords))
+//@   ensures [offset_vec] !allOnes(shape) && err == nil && isVec(shape) && len(strides) == 1 ==> at == strides[0] * sumInts(coords, len(coords))
+//@   assigns nothing
+//@   loop 0 invariant [zeros] 0 <= _i && _i <= len(coords) && (forall j :: 0 <= j && j < _i ==> coords[j] == 0)
+//@   loop 1 invariant [bounds] 0 <= _i && _i <= len(coords) && _i <= len(shape) && err == nil && (forall j :: 0 <= j && j < _i ==> 0 <= coords[j] && coords[j] < shape[j])
+//@   loop 1 invariant [acc] (isVec(shape) && len(strides) == 1) ? at == strides[0] * sumInts(coords, _i) : (_i <= len(strides) && at == dot(strides, coords, _i))
+
+//@ func tensor.Shape.CalcStrides
+//@   props C01 C13
+//@   requires [dims] forall i :: 0 <= i && i < len(s) ==> s[i] >= 0
+//@   ensures [nil] len(s) == 0 ==> result == nil
+//@   ensures [value] len(s) > 0 ==> len(result) == len(s) && (forall i :: 0 <= i && i < len(s) ==> result[i] == sufprod(s, i+1))
+//@   ensures [fresh] len(s) > 0 ==> fresh(result)
+//@   assigns nothing
+//@   loop 0 invariant [acc] -1 <= i && i < len(s) && acc == sufprod(s, i+1) && len(retVal) == len(s) && fresh(retVal) && (forall j :: i < j && j < len(s) ==> retVal[j] == sufprod(s, j+1))
+//@   loop 0 decreases i + 1
+
+//@ func tensor.Shape.CalcStridesColMajor
+//@   props C01 C16
+//@   requires [dims] forall i :: 0 <= i && i < len(s) ==> s[i] >= 0
+//@   ensures [nil] allOnes(s) ==> result == nil
+//@   ensures [vector] !allOnes(s) && isVec(s) ==> len(result) == 1 && result[0] == 1
+//@   ensures [value] !allOnes(s) && !isVec(s) ==> len(result) == len(s) && (forall i :: 0 <= i && i < len(s) ==> result[i] == preprod(s, i))
+//@   ensures [fresh] !allOnes(s) ==> fresh(result)
+//@   assigns nothing
+//@   loop 0 invariant [acc] 0 <= i && i <= len(s) && acc == preprod(s, i) && len(retVal) == len(s) && fresh(retVal) && (forall j :: 0 <= j && j < i ==> retVal[j] == preprod(s, j))
+//@   loop 0 decreases len(s) - i
